@@ -97,6 +97,14 @@ pub fn type_tags(r: &Ref, ty: &str) -> BTreeSet<String> {
             if sized_above && subbyte {
                 tags.insert("child.bitfields-under-sized-payload".into());
             }
+            // an ancestor declares fields behind its payload / body
+            let trailing = fl.levels[..fl.levels.len() - 1].iter().any(|l| {
+                let pos = l.fields.iter().position(|f| matches!(f.k, FK::Payload { .. }));
+                pos.map(|p| l.fields[p + 1..].iter().any(|g| g.bits().map(|w| w > 0).unwrap_or(true))).unwrap_or(false)
+            });
+            if trailing {
+                tags.insert("child.ancestor-fields-after-payload".into());
+            }
             if fl.levels[..fl.levels.len() - 1].iter().any(|l| l.fields.iter().any(|f| matches!(&f.k, FK::Count { .. }))) {
                 tags.insert("child.ancestor-count-array".into());
             }
